@@ -9,10 +9,12 @@ Record ob := {
   o_yaml : bool;                 (* parser_mode = yaml: the observation is compared with the model *)
   o_chan : channel;
   o_loaded : option lres;        (* ChDoc / ChCfgEnv: the loader's answer for the key *)
+  o_nested : bool;               (* ChArgv given item by item: --key.k=TEXT for every entry of a Dict[str, T] setting *)
   o_obs : obs }.
 
 Record case := {
   c_ty : ty; c_val : val; c_text : str; c_clash : bool; c_jsonnet : bool;
+  c_items : list (str * str);    (* the entries of a Dict[str, T] setting as (key, text) — empty when not applicable *)
   c_json_num : N;                (* what Python's json module takes the text for: 1 an integer, 2 a float, 0 neither *)
   c_oracle : list (str * lres);
   c_obs : list ob }.
@@ -20,7 +22,12 @@ Record case := {
 (* `pinned` (Spec/C02Guard.v): the repairs of the type machinery that /repo already contains *)
 Definition yl (c : case) : str -> lres := case_yload (c_oracle c).
 
+(* false: the tree as it is; set to true when fixes/C05-nested-item-no-string-fallback.patch has landed in /repo (and
+   drop class 7 from FINDING_CLASSES): the entry's raw text is then retried like a whole-value text *)
+Definition nested_fixed : bool := false.
+
 Definition model_ob (c : case) (o : ob) : obs :=
+  if o_nested o then obs_of (via_argv_nested pinned (yl c) nested_fixed (c_ty c) (c_items c)) else
   match o_chan o, o_loaded o with
   | (ChDoc | ChCfgEnv), Some (LVal lv) => obs_of (run_channel (chk pinned (yl c)) (c_clash c) (o_chan o) (c_ty c) (c_text c) lv)
   | (ChDoc | ChCfgEnv), _ => Rejected
@@ -84,12 +91,33 @@ Fixpoint str_under_any (t : ty) (v : val) {struct t} : bool :=
   | _ => false
   end.
 
+(* entry-level ambiguity of the item-by-item command line: the entry's text is not read as the entry's value and a
+   string / a str or Any position is involved (e.g. Dict[str, Union[str, bool]], entry true given as --key.k=true) *)
+Fixpoint item_text (k : val) (items : list (str * str)) : option str :=
+  match items with
+  | [] => None
+  | (k', s) :: r => if val_eqb k (VStr k') then Some s else item_text k r
+  end.
+
+Definition nested_ambiguous (C : ty -> val -> ares) (t : ty) (v : val) (items : list (str * str)) : bool :=
+  match t, v with
+  | TDict false t1, VDict d =>
+      existsb (fun kv => match item_text (fst kv) items with
+                         | Some s => negb (ares_eqb (C t1 (VStr s)) (C t1 (snd kv)))
+                                     && (has_string (snd kv) || ty_has_str_any t1)
+                         | None => false
+                         end) d
+  | _, _ => false
+  end.
+
 (* 0 inside the guard of C05_channels_agree;
    1 finding none-unchecked      : None where the type does not admit it (lenient_check returns it unchecked)
    2 finding clash-key-unadapted : a key component is a Namespace clash name (and the setting is otherwise inside the guard)
    3 finding literal-eq-channels : the text and the value part ways only because Literal compares with ==
    4 finding jsonnet-numbers     : a jsonnet-mode parser and a number jsonnet re-renders differently (setting otherwise
                                    inside the guard)
+   7 finding nested-item-no-string-fallback : a Dict[str, T] entry given as --key.k=TEXT whose TEXT loads as a non-string
+     where T wants the string itself: rejected, because the retry with the original string needs a str orig_val
    5 outside the property's quantifier (nothing is demanded): a string below an Any position, or the text is not
      read as the value and a string / a str or Any position is involved — the textual form is ambiguous
    6 outside the guard for any other reason (nothing listed: a spec failure here is a violation) *)
@@ -98,9 +126,15 @@ Definition class_of (c : case) : N :=
   let t := c_ty c in let s := c_text c in let v := c_val c in
   if negb (g_none C t v) then 1
   else if str_under_any t v then 5
+  else if existsb o_nested (c_obs c) && nested_ambiguous C t v (c_items c) then 5
   else if negb (g_reads C t s v) && guard (chk_lit pinned (yl c)) t s v then 3
   else if negb (g_reads C t s v) && (has_string v || ty_has_str_any t) then 5
-  else if guard C t s v then (if c_clash c then 2 else if c_jsonnet c && jsonnet_lossy v then 4 else 0)
+  else if guard C t s v then
+    (if c_clash c then 2
+     else if existsb o_nested (c_obs c)
+             && negb (ares_eqb (via_argv_nested pinned (yl c) nested_fixed t (c_items c)) (via_argv C t s))
+             && ares_eqb (via_argv_nested pinned (yl c) true t (c_items c)) (via_argv C t s) then 7
+     else if c_jsonnet c && jsonnet_lossy v then 4 else 0)
   else 6.
 
 Definition spec_ok (c : case) : bool :=
@@ -151,7 +185,7 @@ Definition judge (cs : list ccase) :=
    others (c_clash := false), and class 2 no longer exists. *)
 Definition unclash (c : case) : case :=
   {| c_ty := c_ty c; c_val := c_val c; c_text := c_text c; c_clash := false; c_jsonnet := c_jsonnet c;
-     c_json_num := c_json_num c; c_oracle := c_oracle c; c_obs := c_obs c |}.
+     c_items := c_items c; c_json_num := c_json_num c; c_oracle := c_oracle c; c_obs := c_obs c |}.
 
 Definition judge1_fixed (c : case) : verdict := judge1 (unclash c).
 
